@@ -48,6 +48,8 @@ SPECIAL = ["__torch_function__", "__getattr__", "__getattribute__"]
 # small delegating root methods whose bodies are translated to `ex`
 BODY_METHODS = ["add", "sub", "div", "rmatmul", "isclose", "_isclose", "__sub__", "__radd__", "__rsub__", "__mul__",
                 "__rmul__", "__matmul__", "__rmatmul__", "__truediv__"]
+# delegating methods that exist only after proposed_fixes/C15-second-arg-keywords.diff: translated when present
+OPTIONAL_BODY_METHODS = ["_add_second_arg", "_sub_second_arg", "_isclose_second_arg"]
 # methods modelled by their contract only (primitive in the value semantics)
 PRIMITIVE = ["__add__", "mul", "matmul"]
 
@@ -612,7 +614,8 @@ def translate(repo, extra_classes=()):
     names = [c.__name__ for c in lib]
     if len(set(names)) != len(names):
         raise Untranslatable("two library classes share a name")
-    relevant = sorted(set(first.values()) | set(second.values()) | set(DUNDERS) | set(SPECIAL) | set(BODY_METHODS) | set(PRIMITIVE))
+    relevant = sorted(set(first.values()) | set(second.values()) | set(DUNDERS) | set(SPECIAL) | set(BODY_METHODS) | set(PRIMITIVE)
+                      | set(OPTIONAL_BODY_METHODS))
     # AST of every operator module
     ast_classes = dict(classes_root)
     opdir = os.path.join(repo, "linear_operator", "operators")
@@ -695,6 +698,9 @@ def translate(repo, extra_classes=()):
         if m not in rootmeths or rootmeths[m][0] == "MOther":
             raise Untranslatable("root method %s missing" % m)
         bodies.append((m, BodyTr(rootmeths[m][2]).translate()))
+    for m in OPTIONAL_BODY_METHODS:
+        if m in rootmeths and rootmeths[m][0] == "MFun":
+            bodies.append((m, BodyTr(rootmeths[m][2]).translate()))
     for m in PRIMITIVE:
         if m not in rootmeths or rootmeths[m][0] != "MFun":
             raise Untranslatable("primitive root method %s missing or a stub" % m)
